@@ -101,6 +101,22 @@ def contour_obligations(P):
             obs.append(req_ob("R-COUNT", site, "returns (level, area) %s" % tag, None, detail=repr(v)[:200]))
             continue
         level, area = (x.expand() for x in v.items)
+        # counting the entries of the searched (non-decreasing) sums that lie below the target is the same search:
+        # count(c < t) = searchsorted(c, t, 'left'), count(c <= t) = searchsorted(c, t, 'right') - whenever the sums are sorted,
+        # which is the only case in which searchsorted itself means anything
+        sub = {}
+        for a in set(level.atoms()) | set(area.atoms()):
+            if a.kind == "fn" and a.name == "countwhere" and a.args[1] in ("<", "<="):
+                e = a.args[0].expand()
+                carr_part = alg.ZERO
+                for mono, cf in e.n.items():
+                    t = Expr({mono: cf})
+                    if any(b.kind == "fn" and b.name == "cumsum" for b in t.top_atoms()):
+                        carr_part = carr_part + t
+                if not carr_part.is_zero():
+                    sub[a] = alg.fn("searchsorted", carr_part, (carr_part - e).expand(), "left" if a.args[1] == "<" else "right", integer=True)
+        if sub:
+            level, area = level.subs(sub).expand(), area.subs(sub).expand()
         perm = alg.fn("permidx", "desc", flx.val)
         srt = alg.fn("gather", flx.val, perm)
         # cell area as the code computes it: located as the factor multiplying (k+1)
